@@ -54,7 +54,7 @@ def run(rep: Report, tier: str) -> None:
     seen_sites = set()
     for kind in ("in", "intra", "out"):
         paths = bm.paths_for(kind)
-        falls = [p for p in paths if p.exit == "fall"]
+        falls = [p for p in paths if p.exit in ("fall", "continue")]  # every path that reaches the back edge
         raises = [p for p in paths if p.exit == "raise"]
         for p in falls:
             evs = p.events
@@ -249,6 +249,11 @@ def run(rep: Report, tier: str) -> None:
     from .. import engine
 
     engine.check_decimal_comparisons(rep, rh)
+
+    ri = rep.rule("C08.i", "the fee-only disposal of a crypto-fee acquisition and the acquisition itself keep the row's exact instant (C11.e restated): 'at any moment' is judged on the spreadsheet's timestamps", floor=20)
+    from . import c11
+
+    c11.check_split(rep, ri)
 
     # ---------------------------------------------------------------- C08.g
     # 'with -n the run proceeds and reports the negative balance': the Account Balances table of the full report writes one row per
